@@ -19,7 +19,7 @@ RULE = ('operand pairs: L x qd x independent bond profiles x every sector-consis
         'of each bond) x dtype combination x operation; identity / dense-vs-sparse / from_vector / split-merge over their own full '
         'parameter products; non-trivial = both operands non-zero with at least one bond of dimension >= 2')
 BUDGET = {'quick': 400, 'thorough': 3600}
-DTYPES = ['cc', 'rr', 'rc']
+DTYPES = ['cc', 'rr', 'rc', 'cr']
 QDS = [[0, 1], [1, -1], [0, 0], [0]]
 
 
@@ -262,10 +262,10 @@ def spaces(tier, seed):
               bounds={'L': Lmpo, 'qd': qds_mpo, 'D': [1, 2], 'dtypes': DTYPES, 'ops': ['+', '-', '@', 'as_matrix dense/sparse']}),
         Space('apply', core.chunked(_apply_cases(Lmpo, qds_mpo, [1, 2]), 300), run_case=run_case, sig=sig,
               bounds={'L': Lmpo, 'qd': qds_mpo, 'D': [1, 2], 'dtypes': DTYPES}),
-        Space('mpo_pairs_L3', core.chunked(_mpo_pair_cases([3], [[0, 1]] if tier == 'quick' else qds_mpo, [1, 2], ['rc'] if tier == 'quick' else DTYPES), 200),
-              run_case=run_case, sig=sig, bounds={'L': [3], 'D': [1, 2], 'dtypes': 'rc (quick) / all (thorough)'}),
-        Space('apply_L3', core.chunked(_apply_cases([3], [[0, 1]] if tier == 'quick' else qds_mpo, [1, 2], ['rc'] if tier == 'quick' else DTYPES), 300),
-              run_case=run_case, sig=sig, bounds={'L': [3], 'D': [1, 2], 'dtypes': 'rc (quick) / all (thorough)'}),
+        Space('mpo_pairs_L3', core.chunked(_mpo_pair_cases([3], [[0, 1]] if tier == 'quick' else qds_mpo, [1, 2], ['rc', 'cr'] if tier == 'quick' else DTYPES), 200),
+              run_case=run_case, sig=sig, bounds={'L': [3], 'D': [1, 2], 'dtypes': 'rc, cr (quick) / all (thorough)'}),
+        Space('apply_L3', core.chunked(_apply_cases([3], [[0, 1]] if tier == 'quick' else qds_mpo, [1, 2], ['rc', 'cr'] if tier == 'quick' else DTYPES), 300),
+              run_case=run_case, sig=sig, bounds={'L': [3], 'D': [1, 2], 'dtypes': 'rc, cr (quick) / all (thorough)'}),
         Space('chained', core.chunked(_chain_cases([1, 2, 3], [[0, 1], [0, 0]]), 100), run_case=run_case, sig=sig,
               bounds={'L': [1, 2, 3], 'expressions': ['((A+B)@C) psi', '(psi+phi)-phi']}),
         Space('identity', core.chunked(_identity_cases(tier), 100), run_case=run_case, sig=sig,
